@@ -53,6 +53,22 @@ CHECKS = {
     "C20": ("Endian.tla (byte-order conversions as byte permutations, theorems checked by MC_Fn); every value of the 8/16-bit "
             "types, boundary/lane/random values of wider types and floats validated by TLC (TrFn.tla); all 2^32 inputs of "
             "uint32/int32/float (thorough; first 2^27 in quick) compared with the byte map emitted by TLC from Endian.tla.", "6 C20"),
+    "C12": ("Lifetimes.tla Variant machine: TLC explores every applicable operation history (depth 3 quick / 4 thorough) "
+            "checking that the canonical successor is admitted by the post-state relation, and emits every history of "
+            "length 3; these and random histories (20-120 ops, 3 objects) are replayed on nop::Variant<A,B> with "
+            "lifetime-tracking, possibly throwing elements under ASan; TrObj.tla validates after every operation index(), "
+            "Visit (exactly one call, active element), get<T>, is<T>, the post-state relation and the ledger of live elements "
+            "(no leak, no double destruction, no use of a dead element).", "6 C12"),
+    "C13": ("Lifetimes.tla Optional/Entry/Result machines handled as C12 (Optional<Tracked>, Optional<int>, Entry<Tracked,5>, "
+            "Result<E,Tracked>): emptiness/has_value/has_error/error()/bool, moved-from-by-assignment is empty, ledger; all 18 "
+            "Optional relational operators on all operand states against the total order of the spec; GetErrorMessage "
+            "defined and distinct for every ErrorStatus.", "6 C13"),
+    "C15": ("(a) W events of every handle-bearing pool type: handles pushed exactly once in the encounter order of "
+            "Wire.tla's EncR, the returned reference (incl. -1, 2^31, 2^63-1, negatives) encoded after the type tag; reads "
+            "with corrupted tags/references/unresolvable references judged by Dec (UnexpectedHandleType, "
+            "InvalidHandleReference verbatim). (b) Lifetimes.tla UniqueHandle machine: invariants HClosedOnce/HUnique "
+            "model-checked, TLC-generated and random ownership histories replayed on UniqueHandle<CountingPolicy>; TrObj.tla "
+            "requires the exact ownership/close/release counters after every operation.", "6 C15"),
 }
 
 PENDING_REASON = "check under construction in this session (DESIGN.md section 12); moves to checks when built"
